@@ -641,6 +641,21 @@ def c01(tier, seed):
                      functions=["sta_rs::Message::generate", "store_bytes"],
                      stubs=["MessageGenerator::derive_random_values / derive_key -> arbitrary values (C04)", "MessageGenerator::share -> a fixed share (C16)",
                             "Ciphertext::new -> records key and plaintext (its masking is c03_masking)", "Drop impls -> no-op"]))
+    def agree_case(en):
+        def f(o, info):
+            v = lay(info, [("m", 2), ("e", 2), ("t", 4)])
+            if v is None:
+                return []
+            return [{"kind": "star_e2e", "m": v["m"].hex(), "e": v["e"][:en].hex(), "t": t, "aux": [None, "", "6175"][:n], "selection": list(range(n))}
+                    for t, n in ((1, 1), (2, 3))]
+        return f
+    for en, q in ((2, "q"), (1, "t"), (0, "q")):
+        obs.append(K("c03::c01_key_agreement_e%d" % en, cap=600, tier=q, must_cover=["reached"] + (["epoch that is not UTF-8 text"] if en else []), to_case=agree_case(en),
+                     claim="client and aggregation side agree on the payload key: inside the real Message::generate the value handed to the sharing layer is r0 and the key handed to the cipher equals derive_ske_key(r0, epoch) as the server computes it, for every epoch byte string (binary epochs included), measurement and threshold",
+                     bounds="epoch of %d arbitrary byte(s), 2-byte measurement, any threshold and client randomness" % en,
+                     functions=["sta_rs::Message::generate", "sta_rs::MessageGenerator::new", "MessageGenerator::derive_key", "sta_rs::derive_ske_key", "strobe_digest"],
+                     stubs=STROBE + ["MessageGenerator::derive_random_values -> arbitrary (r0, r1, r2), r0 recorded (C04)", "MessageGenerator::share -> records the secret it is given, returns a fixed share (C16)",
+                                     "Ciphertext::new -> records key and plaintext (its masking is c03_masking)"]))
     obs.append(K("c03::c03_masking_12", cap=400, must_cover=["reached"], claim="Ciphertext::decrypt under the same key inverts Ciphertext::new", bounds="12-byte payload", stubs=STROBE))
     obs.append(K("c03::c04_ske_sep_1_1", cap=400, must_cover=["equal", "different"], claim="the server re-derives the clients' payload key from (recovered message, epoch): derive_ske_key is a function of exactly these", bounds="see C04", stubs=STROBE))
     obs.append(K("c16::c08_honest_roundtrip_1_1", cap=900, mem=30, must_cover=["reached"], claim="an honestly generated share survives encode -> decode unchanged", bounds="see C08", stubs=ADSS))
